@@ -40,6 +40,12 @@ fn snap_tree(i: usize) -> Entry {
             let mut x = Entry::file(lcg(5, 30), T0 + 7);
             x.meta.mode = Some(0o755);
             t.insert("script", x);
+            // set-group-id executable owned by root: ownership handling (chown) must not strip the bit
+            let mut g = Entry::file(lcg(6, 30), T0 + 8);
+            g.meta.mode = Some(0o2755);
+            g.meta.uid = Some(0);
+            g.meta.gid = Some(0);
+            t.insert("sgid", g);
         }
         1 => {
             t.insert("only", Entry::file(vec![0u8; 3000], T0 + 1)); // all zero: sparse restore
